@@ -137,6 +137,37 @@ template void r_use<msm::back::state_machine<RF_>>();
 template void r_use<msm::back::state_machine<RF_, msm::back::favor_compile_time>>();
 template void r_use<msm::backmp11::state_machine_adapter<RF_>>();
 template void r_use<msm::backmp11::state_machine_adapter<RF_, msm::backmp11::favor_compile_time>>();
+// row2 family: behaviours are member functions of a state (or of the front-end)
+struct R2_ : public msm::front::state_machine_def<R2_>
+{
+    struct S1 : r_st
+    {
+        void act(r_e1 const&) {}
+        bool grd(r_e1 const&) { return true; }
+        void iact(r_i1 const&) {}
+        bool igrd(r_i1 const&) { return true; }
+        void iact2(r_i2 const&) {}
+        bool igrd3(r_i3 const&) { return true; }
+    };
+    struct S2 : r_st
+    {
+        void act2(r_e2 const&) {}
+        bool grd3(r_e3 const&) { return false; }
+    };
+    typedef S1 initial_state;
+    struct transition_table : mpl::vector<
+        msm::front::row2<S1, r_e1, S2, S1, &S1::act, S1, &S1::grd>,
+        msm::front::a_row2<S2, r_e2, S1, S2, &S2::act2>,
+        msm::front::g_row2<S2, r_e3, S1, S2, &S2::grd3>,
+        msm::front::_row2<S2, r_e4, S1>,
+        msm::front::irow2<S1, r_i1, S1, &S1::iact, S1, &S1::igrd>,
+        msm::front::a_irow2<S1, r_i2, S1, &S1::iact2>,
+        msm::front::g_irow2<S1, r_i3, S1, &S1::igrd3>
+    > {};
+    template <class FSM, class Event> void no_transition(Event const&, FSM&, int) {}
+};
+template void r_use<msm::back::state_machine<R2_>>();
+template void r_use<msm::back11::state_machine<R2_>>();
 // state-behaviour (three-argument) forms of the composing functors, as eUML state entry / exit expressions use them
 struct r_sg1 { template <class E, class F, class S> bool operator()(E const&, F&, S&) { return true; } };
 struct r_sg2 { template <class E, class F, class S> bool operator()(E const&, F&, S&) { return false; } };
